@@ -247,6 +247,9 @@ def same_outcome(ex, x, y, locs, tags):
         a, b = x['rets'].get(t), y['rets'].get(t)
         if a is None and b is None:
             continue
+        if isinstance(a, Ptr) or isinstance(b, Ptr):
+            c.append(z3.BoolVal(isinstance(a, Ptr) and isinstance(b, Ptr) and not a.sym and not b.sym and (a.r, a.o) == (b.r, b.o)))
+            continue
         a, b = bv(ret64(a), 64), bv(ret64(b), 64)
         c.append(z3.Extract(15, 0, a) == z3.Extract(15, 0, b))
     for rid, off, n in sorted(locs, key=str):
@@ -282,9 +285,9 @@ def delivery_obligations(ck, G, ex, st, ctx, Aov, names, hostcb):
     IL = L['Interpreter']
     for i in range(4):
         if i < 3:
-            nm, op, cond = 'SendData(%d)' % i, ('a', '@ti_senddata', [impl, i, v]), names['apbp_from_cpu.ch%d.disable' % i] == 0
+            nm, op, cond = 'SendData(%d)' % i, ('a', '@tf_senddata', [impl, i, v]), names['apbp_from_cpu.ch%d.disable' % i] == 0
         else:
-            nm, op, cond = 'SetSemaphore', ('a', '@ti_setsemaphore', [impl, v]), (v & ~names['apbp_from_cpu.mask']) != 0
+            nm, op, cond = 'SetSemaphore', ('a', '@tf_setsemaphore', [impl, v]), (v & ~names['apbp_from_cpu.mask']) != 0
         try:
             r = lin_run(G, ex, st, ctx, hostcb, [op])
         except (Abort, UnwindBound) as x:
@@ -365,7 +368,9 @@ def lin_job(pairs, tier, seed):
     return ck.export()
 
 
-SIG = {'@ti_senddata': (None, 'u8', 'u16'), '@ti_recvdata': ('u16', 'u8'), '@ti_peekrecvdata': ('u16', 'u8'), '@ti_senddataisempty': ('u8', 'u8'), '@ti_recvdataisready': ('u8', 'u8'),
+SIG = {'@tf_senddata': (None, 'u8', 'u16'), '@tf_recvdata': ('u16', 'u8'), '@tf_peekrecvdata': ('u16', 'u8'), '@tf_senddataisempty': ('u8', 'u8'), '@tf_recvdataisready': ('u8', 'u8'),
+       '@tf_setsemaphore': (None, 'u16'), '@tf_getsemaphore': ('u16',), '@tf_clearsemaphore': (None, 'u16'), '@tf_masksemaphore': (None, 'u16'),
+       '@ti_senddata': (None, 'u8', 'u16'), '@ti_recvdata': ('u16', 'u8'), '@ti_peekrecvdata': ('u16', 'u8'), '@ti_senddataisempty': ('u8', 'u8'), '@ti_recvdataisready': ('u8', 'u8'),
        '@ti_setsemaphore': (None, 'u16'), '@ti_getsemaphore': ('u16',), '@ti_clearsemaphore': (None, 'u16'), '@ti_masksemaphore': (None, 'u16'), '@ti_mmio_write': (None, 'u16', 'u16'), '@ti_mmio_read': ('u16', 'u16')}
 
 
@@ -465,9 +470,9 @@ def run(tier, seed):
     idx = [z3.ULT(i8, 3)]
     host = []
     for i in range(3):          # channel index enumerated: the lock identity (which channel mutex) must be concrete
-        host += [('SendData(%d)' % i, '@ti_senddata', [impl, i, v], []), ('RecvData(%d)' % i, '@ti_recvdata', [impl, i], []), ('PeekRecvData(%d)' % i, '@ti_peekrecvdata', [impl, i], []),
-                 ('SendDataIsEmpty(%d)' % i, '@ti_senddataisempty', [impl, i], []), ('RecvDataIsReady(%d)' % i, '@ti_recvdataisready', [impl, i], [])]
-    host += [('SetSemaphore', '@ti_setsemaphore', [impl, v], []), ('GetSemaphore', '@ti_getsemaphore', [impl], []), ('ClearSemaphore', '@ti_clearsemaphore', [impl, v], []), ('MaskSemaphore', '@ti_masksemaphore', [impl, v], [])]
+        host += [('SendData(%d)' % i, '@tf_senddata', [impl, i, v], []), ('RecvData(%d)' % i, '@tf_recvdata', [impl, i], []), ('PeekRecvData(%d)' % i, '@tf_peekrecvdata', [impl, i], []),
+                 ('SendDataIsEmpty(%d)' % i, '@tf_senddataisempty', [impl, i], []), ('RecvDataIsReady(%d)' % i, '@tf_recvdataisready', [impl, i], [])]
+    host += [('SetSemaphore', '@tf_setsemaphore', [impl, v], []), ('GetSemaphore', '@tf_getsemaphore', [impl], []), ('ClearSemaphore', '@tf_clearsemaphore', [impl, v], []), ('MaskSemaphore', '@tf_masksemaphore', [impl, v], [])]
     dsp = []
     for a in list(range(0x0C0, 0x0DA, 2)) + list(range(0x200, 0x252, 2)):
         dsp.append(('MMIO write %#05x' % a, '@ti_mmio_write', [impl, a, v], []))
@@ -569,6 +574,8 @@ def run(tier, seed):
         else:
             ck.absorb(r)
     delivery_obligations(ck, G, ex, st, ctx, A, names, hostcb)
+    from checks import facade
+    facade.obligations(ck, 'apbp')
     # ---- re-entrancy: a host callback is never invoked while a non-recursive mutex is held
     for entry, cbname, held in allcb:
         bad = [h for h in held if 'semaphore_mutex' not in h]
@@ -580,7 +587,7 @@ def run(tier, seed):
             ck.identical(nm, sample='host callback %s (raised by %s) runs with %s held: the mailbox API can be called from it without deadlock' % (cbname, entry, 'only the recursive semaphore mutex' if rec else 'no mutex'))
     ck.funcs.update(['Apbp::SendData/RecvData/PeekData/IsDataReady/SetSemaphore/ClearSemaphore/GetSemaphore/MaskSemaphore/Get/SetDisableInterrupt', 'DataChannel::*', 'ICU::Trigger/Acknowledge/SetEnable*/Get*', 'Processor::SignalInterrupt',
                      'the MMIO closures at 0x0C0..0x0D8 and 0x200..0x250', 'std::lock_guard / std::mutex / std::recursive_mutex down to pthread_mutex_lock'])
-    ck.assumptions += ['threads: the host thread runs the mailbox/semaphore API, the DSP thread runs Run (whose accesses to these objects are MMIO reads/writes of the APBP and ICU registers and interrupt delivery); handler setters are not part of the concurrent API',
+    ck.assumptions += ['host entry points are the real public wrappers of src/teakra.cpp (Teakra::SendData, RecvData, ...) called on the constructed Impl; Facade[...] obligations prove each equal to the component operation that C14 specifies', 'threads: the host thread runs the mailbox/semaphore API, the DSP thread runs Run (whose accesses to these objects are MMIO reads/writes of the APBP and ICU registers and interrupt delivery); handler setters are not part of the concurrent API',
                        'pthread_mutex_lock/unlock are modelled as lock-set bookkeeping; atomics are atomic; everything between is sequential code executed symbolically',
                        'decided: data-race freedom by lock sets, callback re-entrancy, and atomicity: an operation with a point between two of its critical sections at which an operation of the other thread competing for the same mutex can run is executed with that operation placed there (every such point x every competing operation) and must equal one of the two sequential orders in return values, final mailbox/ICU/latch state and host-callback counts - so "every value read is one that was written, in send order, the last value is observable" reduce to the sequential one-step results of C14. NOT decided: fairness ("eventually"), memory-order effects of the atomics, more than two operations in flight, schedules that preempt inside a critical section (excluded by the mutex itself)']
     ck.bounds += ['one call per entry point from an arbitrary mailbox/ICU state, channel index enumerated 0..2, callback re-entrancy depth 1', 'interleavings: two operations (one per thread), the second placed as one atomic step at a critical-section boundary of the first; quick tier at most 96 interleaving points (seeded sample), thorough all']
